@@ -580,7 +580,11 @@ func decorateXOrder(t *rapid.T, v any) {
 				if m, ok := x[k].(map[string]any); ok {
 					for _, name := range model.SortedKeys(m) {
 						if sch, ok := m[name].(map[string]any); ok && gen.Pct(t, "hasxorder", 70) {
-							sch["x-order"] = xOrderValue(t)
+							key := "x-order"
+							if gen.Pct(t, "xordercase", 6) {
+								key = []string{"X-Order", "x-Order", "X-ORDER"}[gen.Uniform(t, "xordervariant", 3)]
+							}
+							sch[key] = xOrderValue(t)
 						}
 					}
 				}
@@ -680,6 +684,16 @@ func TestC06(t *testing.T) {
 		}
 		v := gen.NewV(t, gen.VocabOpts{Hostile: true, Refs: true, EmptySecurity: true, Budget: 30})
 		doc := v.Instance(kind)
+		if kind == "schema" && gen.Pct(t, "wide", 25) {
+			// a wide container: many properties sharing few x-order values (sorting algorithms change behaviour with size)
+			m := doc.(map[string]any)
+			props := map[string]any{}
+			n := 8 + gen.Uniform(t, "nwide", 24)
+			for i := 0; i < n; i++ {
+				props[fmt.Sprintf("%c%02d", 'a'+rune((i*7)%26), (i*13)%n)] = map[string]any{}
+			}
+			m[[]string{"properties", "patternProperties"}[gen.Uniform(t, "widekw", 2)]] = props
+		}
 		decorateXOrder(t, doc)
 		mutated := false
 		if gen.Pct(t, "nonnormal", 35) {
